@@ -269,6 +269,7 @@ type tcase struct {
 	n               int
 	t0, t1          int64 // data time span
 	corpus          string
+	split           []int // per series: index where info{version} changes from "1" to "2" (-1: constant)
 }
 
 var lookbacks = []int64{300000, 60000, 20000}
@@ -385,6 +386,15 @@ func genCase(r *gen.Rand) tcase {
 			c.t1 = ts[n-1]
 		}
 	}
+	// info-style series info{s, version}: version "1" up to sample split-1, a staleness marker at
+	// sample split, version "2" from sample split on (the copied label changes within the data)
+	for _, s := range c.ser {
+		sp := -1
+		if len(s.ts) >= 2 && !r.Chance(1, 4) {
+			sp = int(r.Range(1, int64(len(s.ts)-1)))
+		}
+		c.split = append(c.split, sp)
+	}
 	// histogram series (sometimes with a few float samples mixed in)
 	nh := r.Intn(3)
 	for i := 0; i < nh; i++ {
@@ -447,7 +457,7 @@ func genCase(r *gen.Rand) tcase {
 
 func (c *tcase) storage() storage.Queryable {
 	var all []mseries
-	for _, s := range c.ser {
+	for i, s := range c.ser {
 		var lm, lp []chunks.Sample
 		for j, t := range s.ts {
 			if s.stale[j] {
@@ -460,6 +470,28 @@ func (c *tcase) storage() storage.Queryable {
 		}
 		all = append(all, mseries{lbls: labels.FromStrings("__name__", "m", "s", s.s, "g", s.g), smps: lm})
 		all = append(all, mseries{lbls: labels.FromStrings("__name__", "p", "s", s.s, "g", s.g), smps: lp})
+		sp := -1
+		if i < len(c.split) {
+			sp = c.split[i]
+		}
+		var v1, v2 []chunks.Sample
+		for j, t := range s.ts {
+			switch {
+			case sp < 0 || j < sp:
+				v1 = append(v1, smp{t: t, f: 1})
+			case j == sp:
+				v1 = append(v1, smp{t: t, f: math.Float64frombits(value.StaleNaN)})
+				v2 = append(v2, smp{t: t, f: 1})
+			default:
+				v2 = append(v2, smp{t: t, f: 1})
+			}
+		}
+		if len(v1) > 0 {
+			all = append(all, mseries{lbls: labels.FromStrings("__name__", "info", "s", s.s, "version", "1"), smps: v1})
+		}
+		if len(v2) > 0 {
+			all = append(all, mseries{lbls: labels.FromStrings("__name__", "info", "s", s.s, "version", "2"), smps: v2})
+		}
 	}
 	all = append(all, c.hser...)
 	return queryable(all)
@@ -511,6 +543,41 @@ func (g *qgen) mods() string {
 		s += fmt.Sprintf(" @ %d.%03d", at/1000, at%1000)
 	}
 	return s
+}
+
+// many-to-one / one-to-many join with the info series: the copied label (version) of the "one"
+// side changes within the data, so the result label set of a many-side series changes from
+// step to step
+func (g *qgen) infoJoin(depth int) string {
+	r := g.r
+	var many string
+	switch r.Intn(4) {
+	case 0:
+		many = "sum by (s, g) (" + g.selector(false) + g.mods() + ")"
+	case 1:
+		if depth > 0 {
+			a, _ := g.rv(0, false)
+			many = gen.Pick(r, []string{"last_over_time", "max_over_time", "count_over_time", "rate"}) + "(" + a + ")"
+			break
+		}
+		fallthrough
+	default:
+		many = g.selector(false) + g.mods()
+	}
+	one := "info" + g.mods()
+	if r.Chance(1, 5) {
+		one = "last_over_time(info[" + dur(g.someRange()) + "]" + g.mods() + ")"
+	}
+	op := gen.Pick(r, []string{"*", "+", "-", "/", ">=", "== bool", "*", "*"})
+	incl := gen.Pick(r, []string{"(version)", "(version)", "(version)", "()", ""})
+	on := " on (s) "
+	if r.Chance(1, 3) {
+		on = " ignoring (g, version) "
+	}
+	if r.Bool() {
+		return "(" + one + ") " + op + on + "group_right " + incl + " (" + many + ")"
+	}
+	return "(" + many + ") " + op + on + "group_left " + incl + " (" + one + ")"
 }
 
 func (g *qgen) atMod() string {
@@ -698,6 +765,9 @@ func (g *qgen) iv(depth int, hist bool) (s string, ordered bool) {
 		}
 		return "(" + a + ") " + gen.Pick(r, arith) + " (" + sc + ")", false
 	case 7, 8: // vector op vector
+		if !hist && r.Chance(1, 3) {
+			return g.infoJoin(depth - 1), false
+		}
 		a, _ := g.iv(depth-1, hist)
 		b, _ := g.iv(depth-1, hist && r.Chance(2, 3))
 		var op string
@@ -948,7 +1018,11 @@ func main() {
 		d := desc{Seed: f.Seed, Index: index, Lookback: c.lookback, Start: c.start, Step: c.step, N: c.n, Shape: "ok", Corpus: c.corpus}
 		for _, s := range c.ser {
 			var sb strings.Builder
-			fmt.Fprintf(&sb, "m/p{s=%s,g=%s}:", s.s, s.g)
+			sp := -1
+			if len(d.Series) < len(c.split) {
+				sp = c.split[len(d.Series)]
+			}
+			fmt.Fprintf(&sb, "m/p{s=%s,g=%s} info-version-change-at-sample=%d:", s.s, s.g, sp)
 			for j, t := range s.ts {
 				if s.stale[j] {
 					fmt.Fprintf(&sb, " %d:stale", t)
@@ -1197,7 +1271,13 @@ func perShard(tier string) int {
 // offset, inner @ selectors of a subquery with a negative offset
 func regression(g *qgen, id int) string {
 	at := g.atMod()
-	switch id % 6 {
+	switch id % 9 {
+	case 6:
+		return "info * on (s) group_right (version) m"
+	case 7:
+		return "m * on (s) group_left (version) info"
+	case 8:
+		return "(info offset " + dur(g.c.iv) + ") + ignoring (g, version) group_right (version) sum by (s, g) (p)"
 	case 0:
 		return "topk(scalar(count(m) or vector(0)) + 1, m" + at + ")"
 	case 1:
@@ -1233,7 +1313,7 @@ func show(v []osmp) string {
 }
 
 func classify(meta *gallina.Meta, expr string) {
-	for _, k := range []string{"offset", "@", ":", "rate(", "_over_time(", "sum", "topk", " and ", " or ", "timestamp(", "time()", "h{", "scalar(", "predict_linear("} {
+	for _, k := range []string{"group_left", "group_right", "offset", "@", ":", "rate(", "_over_time(", "sum", "topk", " and ", " or ", "timestamp(", "time()", "h{", "scalar(", "predict_linear("} {
 		if strings.Contains(expr, k) {
 			meta.Hit("q:" + strings.TrimSpace(k))
 		}
@@ -1267,6 +1347,11 @@ func corpus() []tcase {
 	// steps exactly at sample + lookback (absent there, present one step earlier)
 	l = append(l, tcase{lookback: 20000, iv: 5000, ser: []pseries{regular("a", "x", 600000, 5000, 1, 2, 3), regular("b", "y", 640000, 5000, 5, nan, 7)},
 		start: 610000, step: 5000, n: 12, t0: 600000, t1: 650000, corpus: "lookback-edge"})
+	// the copied label of a group_left/group_right join changes in the middle of the range
+	l = append(l, tcase{lookback: 20000, iv: 10000, ser: []pseries{regular("a", "x", 600000, 10000, 1, 2, 3, 4, 5, 6, 7, 8), regular("b", "y", 600000, 10000, 9, 8, 7, 6, 5, 4, 3, 2)},
+		split: []int{4, 2}, start: 600000, step: 10000, n: 8, t0: 600000, t1: 670000, corpus: "info-change"})
+	l = append(l, tcase{lookback: 60000, iv: 15000, ser: []pseries{regular("a", "x", 600000, 15000, 1, 2, 3, 4, 5, 6)},
+		split: []int{3}, start: 607000, step: 7000, n: 10, t0: 600000, t1: 675000, corpus: "info-change-irregular-steps"})
 	// single step
 	l = append(l, tcase{lookback: 300000, iv: 5000, ser: []pseries{regular("a", "x", 600000, 5000, 3, 1, 4, 1, 5)},
 		start: 612345, step: 1000, n: 1, t0: 600000, t1: 620000, corpus: "single-step"})
